@@ -23,6 +23,10 @@ type Cell struct {
 	Str      string `json:"str,omitempty"`      // drawn string (subdomain / description / domain)
 	N        int64  `json:"n,omitempty"`        // drawn number (bytes, port)
 	TokenIs  string `json:"token_is,omitempty"` // id (default) | secret : Token carries the claimed client's id or (for own) nothing else
+	// BodyTarget: the in-body target_client_id of the commands in which it is a real field (SOCKS5 tunnel
+	// request, DNS requests): "" = the victim mapping's target T (dns: per Target), absent = field omitted,
+	// T | S | L = that client's id. For SOCKS5 it is an identity field like any other: it must have no effect.
+	BodyTarget string `json:"body_target,omitempty"`
 }
 
 type meta struct {
@@ -156,19 +160,26 @@ var specs = []spec{
 		Body: func(w *world, c *Cell, rid int64, m *meta) string {
 			m.mappingID = w.mappingFor(c, rid, true)
 			m.targetID = w.who["T"].id
-			return fmt.Sprintf(`{"tunnel_id":"socks5-tunnel-%d-1080","mapping_id":%s,"target_client_id":%d,"target_host":"dyn-host.example","target_port":%d,"protocol":"tcp"%s}`,
-				1790000000000000000+c.N, jstr(m.mappingID), m.targetID, 1+c.N%65000, extras(w.claimed(c, rid), false))
+			tfield := fmt.Sprintf(`"target_client_id":%d,`, m.targetID)
+			switch c.BodyTarget {
+			case "absent":
+				tfield = ""
+			case "T", "S", "L":
+				tfield = fmt.Sprintf(`"target_client_id":%d,`, w.who[c.BodyTarget].id)
+			}
+			return fmt.Sprintf(`{"tunnel_id":"socks5-tunnel-%d-1080","mapping_id":%s,%s"target_host":"dyn-host.example","target_port":%d,"protocol":"tcp"%s}`,
+				1790000000000000000+c.N, jstr(m.mappingID), tfield, 1+c.N%65000, extras(w.claimed(c, rid), false))
 		}},
 	{Name: "DNSResolveReq", Type: packet.DNSResolve, Special: true, Object: "client",
 		Body: func(w *world, c *Cell, rid int64, m *meta) string {
 			m.targetID = w.dnsTarget(c)
-			return fmt.Sprintf(`{"domain":%s,"qtype":1,"target_client_id":%d%s}`, jstr("q"+subdomainOf(c.Str)+".example"), m.targetID, extras(w.claimed(c, rid), false))
+			return fmt.Sprintf(`{"domain":%s,"qtype":1%s%s}`, jstr("q"+subdomainOf(c.Str)+".example"), dnsTargetField(c, m.targetID), extras(w.claimed(c, rid), false))
 		}},
 	{Name: "DNSQueryReq", Type: packet.DNSQuery, Special: true, Object: "client",
 		Body: func(w *world, c *Cell, rid int64, m *meta) string {
 			m.targetID = w.dnsTarget(c)
 			b, _ := json.Marshal([]byte("raw-dns-query-" + c.Str))
-			return fmt.Sprintf(`{"query_id":"q-%d","target_client_id":%d,"dns_server":"9.9.9.9:53","raw_query":%s%s}`, c.N, m.targetID, b, extras(w.claimed(c, rid), false))
+			return fmt.Sprintf(`{"query_id":"q-%d"%s,"dns_server":"9.9.9.9:53","raw_query":%s%s}`, c.N, dnsTargetField(c, m.targetID), b, extras(w.claimed(c, rid), false))
 		}},
 	{Name: "TunnelTrafficReport", Type: packet.TunnelTrafficReport, Special: true, Object: "traffic",
 		Body: func(w *world, c *Cell, rid int64, m *meta) string {
@@ -208,7 +219,20 @@ func subdomainOf(s string) string {
 	return b.String()
 }
 
+func dnsTargetField(c *Cell, id int64) string {
+	if c.BodyTarget == "absent" {
+		return ""
+	}
+	return fmt.Sprintf(`,"target_client_id":%d`, id)
+}
+
 func (w *world) dnsTarget(c *Cell) int64 {
+	switch c.BodyTarget {
+	case "absent":
+		return 0 // field omitted: the server falls back to the requester's own default target
+	case "T", "S", "L":
+		return w.who[c.BodyTarget].id
+	}
 	switch c.Target {
 	case "own":
 		return -1 // "use my default target": resolved by the server from the requester's own socks mappings
@@ -544,13 +568,30 @@ func (w *world) judge(sp *spec, c *Cell, rid int64, m *meta, before, after snaps
 				ok = true
 			}
 		case sp.Type == packet.DNSResolve || sp.Type == packet.DNSQuery:
-			if authed && recv != 0 && (recv == m.targetID || m.targetID <= 0) {
+			named := m.targetID > 0 && recv == m.targetID
+			if m.targetID <= 0 {
+				// default path: the receiver must be the target of one of the requester's own mappings
+				for _, o := range before {
+					if o.Kind == "mapping" && o.Parties[0] == rid && o.Parties[1] == recv {
+						named = true
+					}
+				}
+			}
+			if authed && recv != 0 && named {
 				ok = true
 				if !party {
 					// an authenticated client without a mapping to the target: the statement does not
 					// decide this; recorded, not asserted
 					res.recorded = append(res.recorded, "recorded:dns-forwarded-for-authenticated-client-without-mapping-to-target")
 				}
+			}
+		}
+		if !ok && sp.Type == packet.SOCKS5TunnelRequestCmd {
+			if o, has := before["mapping:"+m.mappingID]; has && authed && o.Parties[0] == rid {
+				// the mapping's own listen client reached somebody who is not the mapping's target
+				return bad("packet-delivered-to-client-that-is-not-the-mappings-target",
+					fmt.Sprintf("listen client %s(id %d) of mapping %s (target %d) sent in-body target_client_id=%q and the request was delivered to %s(id %d): %s",
+						c.Identity, rid, m.mappingID, o.Parties[1], c.BodyTarget, n, recv, pktString(out.others[n][0])))
 			}
 		}
 		if !ok {
